@@ -72,6 +72,19 @@ def main():
                 continue
             s = s.replace(m['find'], m['replace'])
             open(path, 'w').write(s)
+            broken = False
+            for e in m.get('more', []):          # further edits of the same change (same or other file)
+                p2 = os.path.join(td, e.get('file', m['file']))
+                s2 = open(p2).read()
+                if s2.count(e['find']) != 1:
+                    print('SELFTEST-BROKEN %s: anchor text of an extra edit occurs %d times' % (
+                        m['id'], s2.count(e['find'])))
+                    broken = True
+                    break
+                open(p2, 'w').write(s2.replace(e['find'], e['replace']))
+            if broken:
+                fails += 1
+                continue
             rc, out = run_check(m['property'], td)
             if m.get('neutral'):
                 # behaviour-preserving rewrite: the check must stay silent (no false alarm, no exit 2)
